@@ -70,20 +70,51 @@
 (* id; the source node must resolve the bridge by the FULL id (MUT "headerFirst": header first). *)
 (* Credential "otherSecret": id + secret of a third mapping M3 whose TARGET client is the        *)
 (* stranger - valid credentials that pass the validation and do not make the presenter a source. *)
+(*                                                                                              *)
+(* Round 3 (mechanisms around the three behaviour classes the round-3 seeded changes live in):   *)
+(*  - Validity is computed AT READ TIME from the stored record and the clock (PortMapping.       *)
+(*    IsValid: status, IsRevoked, time.Now().After(ExpiresAt)).  Mapping state "lapsed": the     *)
+(*    record carries an ExpiresAt in the near future from the start ("lapsing") and the instant   *)
+(*    passes (SetMap = the clock, NO store write; variable `late`).  "expiredJust" is the same    *)
+(*    boundary reached by an administrative write.  MUT "expirySkew": IsExpired tolerates a       *)
+(*    recently passed ExpiresAt.  MUT "lookupCache" / "validityCache": the handler memoises a     *)
+(*    positive validation of M (`vc`) - never dropped / dropped by the next write to M's record   *)
+(*    (the second kind is only caught by "lapsed": no write ever drops it).                        *)
+(*  - Writers of M's whole record besides the administration: RecordMappingUsage (above) and the   *)
+(*    bridge's traffic report (tunnel/bridge_traffic.go: read the record, add the deltas,          *)
+(*    UpdatePortMappingStats = read again and write the whole record).  Order "closeAfter": a      *)
+(*    served tunnel carries data, the mapping is changed, THEN the tunnel closes (final traffic   *)
+(*    report) and the requester arrives.  `bc` is the record as it was when the bridge was        *)
+(*    created; MUT "closeStaleCopy": the report writes that copy back.                             *)
+(*  - Two tunnel ids with the same first 16 bytes, in both role assignments and on both paths:    *)
+(*    "prefixRemote" (victim T short, requester names T+ on node B), "prefixRemoteRev" (victim    *)
+(*    T+ LONG: its header names the other mapping's short tunnel T), "prefixLocal" /              *)
+(*    "prefixLocalRev" (the request arrives on the node that holds both bridges: the dispatcher   *)
+(*    resolves the bridge and compares the mapping on the SAME lookup, so a lossy key there is     *)
+(*    caught by the bindMapping comparison; on the node-to-node hop the comparison (node B,        *)
+(*    routing record, full id) and the resolution (node A, frame) are different lookups).          *)
 EXTENDS Naturals, Sequences, FiniteSets, TLC, Json
 
 CONSTANTS FIXES,     \* see above
           Idents,    \* subset of {"none", "noneHs", "listen", "target", "stranger"}
           Creds,     \* subset of {"idOnly", "rightSecret", "wrongSecret", "resume", "nothing", "otherId", "otherSecret"}
-          MStates,   \* subset of {"active", "revoked", "expired", "expiredJust", "inactive", "error", "suspended", "missing"}
+          MStates,   \* subset of {"active", "revoked", "expired", "expiredJust", "lapsed", "inactive", "error", "suspended", "missing"}
           Shapes,    \* subset of {"std", "noListen", "noTarget"} (non-std: tunnel state "none" only)
-          MUT,       \* seeded deviations the model can express ({} = the tree): "authLast", "usageAsync", "headerFirst"
-          TStates,   \* subset of {"none", "waiting", "served", "remote", "lateLocal", "lateRemote", "prefixRemote"}
-          Orders,    \* subset of {"legitFirst", "reqFirst", "slowUsage", "inflightUsage"}
+          MUT,       \* seeded deviations the model can express ({} = the tree): "authLast", "usageAsync", "headerFirst",
+                     \* "expirySkew", "lookupCache", "validityCache", "closeStaleCopy"
+          TStates,   \* subset of {"none", "waiting", "served", "remote", "lateLocal", "lateRemote",
+                     \*            "prefixRemote", "prefixRemoteRev", "prefixLocal", "prefixLocalRev"}
+          Orders,    \* subset of {"legitFirst", "reqFirst", "slowUsage", "inflightUsage", "closeAfter"}
           Masked,    \* BOOLEAN: invariants hold "or a named deviation fired" (as-found tree)
           Emit       \* BOOLEAN: print one behaviour per cell
 
 None == "-"
+
+\* One run for all named deviations (TunnelOpen_show_all.cfg): MUT = {"*"} makes the deviation a
+\* dimension of the cell - cell.mut ranges over ShowMuts, "asFound" standing for FIXES = {} - and
+\* ShowRecord / AllShown (below) check that EVERY one of them leads to an unauthorised attachment.
+\* In every other configuration cell.mut = "-", Mut = MUT and Fx = FIXES.
+ShowMuts == <<"asFound", "usageAsync", "expirySkew", "headerFirst", "lookupCache", "validityCache", "closeStaleCopy">>
 Who  == {"S", "T", "R", "P"}     \* P: the stranger's own client, source of the prefix-related tunnel T+
 
 VARIABLES cell,   \* the cell of the product this behaviour runs
@@ -100,10 +131,19 @@ VARIABLES cell,   \* the cell of the product this behaviour runs
           opened, \* set of connections that sent their TunnelOpen
           dev,    \* ghost: named deviations that fired
           poll,   \* connection waiting in lookupTunnelRouting (None: nobody)
+          late,   \* BOOLEAN: the ExpiresAt of a "lapsing" record has passed (the clock, not the store)
+          vc,     \* BOOLEAN: a positive validation of M is memoised by the handler (matters under MUT only)
+          bc,     \* the record of M as it was when M's bridge was created (None: no bridge yet)
           hist    \* the steps taken (behaviour handed to the driver)
-vars == <<cell, pc, mst, adm, uw, br, br2, ack, att, got, ent, opened, dev, poll, hist>>
+Mut == IF "*" \in MUT THEN {cell.mut} \ {"asFound"} ELSE MUT
+Fx  == IF cell.mut = "asFound" THEN {} ELSE FIXES
+vars == <<cell, pc, mst, adm, uw, br, br2, ack, att, got, ent, opened, dev, poll, late, vc, bc, hist>>
 Late == {"lateLocal", "lateRemote"}
 UsageOrders == {"slowUsage", "inflightUsage"}
+HistOrders == UsageOrders \cup {"closeAfter"}      \* orders that need an admitted open BEFORE the change
+Prefix    == {"prefixRemote", "prefixRemoteRev", "prefixLocal", "prefixLocalRev"}
+PrefixRev == {"prefixRemoteRev", "prefixLocalRev"}
+OnB       == {"remote", "lateRemote", "prefixRemote", "prefixRemoteRev"}   \* the requester arrives on node B
 
 NoBridge == [node |-> None, map |-> None, src |-> None, tgt |-> None, live |-> None, xn |-> None]
 
@@ -115,15 +155,26 @@ Prof(w) == CASE w = "S" -> [id |-> "listen", cred |-> "idOnly"]
              [] w = "P" -> [id |-> "stranger", cred |-> "otherId"]
 
 \* tunnel id a connection names, and the bridge registered under it
-Tid(w) == IF cell.ts = "prefixRemote" /\ w \in {"P", "R"} THEN "T+" ELSE "T"
+\* prefix classes: the victim (mapping M, source S) has the short id T and the other mapping's
+\* tunnel the long one T+ - or the other way round (Rev).  The requester always names the LONG id:
+\* only a long id is truncated on its way into a 16-byte field
+Tid(w) == IF cell.ts \in Prefix \ PrefixRev /\ w \in {"P", "R"} THEN "T+"
+          ELSE IF cell.ts \in PrefixRev /\ w \in {"S", "T", "R"} THEN "T+" ELSE "T"
 Bof(w) == IF Tid(w) = "T" THEN br ELSE br2
 
 \* mapping named in the request ("nothing" carries the tunnel id only)
 Pres(p) == IF p.cred = "otherId" THEN "M2" ELSE IF p.cred = "otherSecret" THEN "M3"
            ELSE IF p.cred = "nothing" THEN None ELSE "M"
 
-MExists(m)     == m \in {"M2", "M3"} \/ (m = "M" /\ mst # "missing")
-MValid(m)      == m \in {"M2", "M3"} \/ (m = "M" /\ mst = "active")     \* PortMapping.IsValid
+\* PortMapping.IsValid of a stored record r, evaluated now: status active, not revoked, ExpiresAt
+\* not passed.  "lapsing" = active with an ExpiresAt that passes when `late` becomes true
+StoreValid(r)  == \/ r = "active"
+                  \/ r = "lapsing" /\ (~late \/ "expirySkew" \in Mut)
+                  \/ r = "expiredJust" /\ "expirySkew" \in Mut         \* IsExpired with a tolerance
+\* a memoised positive validation stands in for the lookup (MUT only)
+Cached         == vc /\ Mut \cap {"lookupCache", "validityCache"} # {}
+MExists(m)     == m \in {"M2", "M3"} \/ (m = "M" /\ (mst # "missing" \/ Cached))
+MValid(m)      == m \in {"M2", "M3"} \/ (m = "M" /\ (StoreValid(mst) \/ Cached))
 \* client ids: of a connection (0 until the key is proven) and of the mappings' parties
 Cid(i) == CASE i \in {"none", "noneHs"} -> "0" [] i = "listen" -> "L" [] i = "target" -> "T" [] i = "stranger" -> "X"
 LId(m) == CASE m = "M" -> (IF cell.shape = "noListen" THEN "0" ELSE "L") [] m = "M2" -> "X" [] m = "M3" -> "X2" [] OTHER -> "?"
@@ -139,12 +190,12 @@ Validate(p) ==
   LET m == Pres(p) IN
   /\ HasCtl(p.id)                      \* else "connection not found or not authenticated"
   /\ p.cred # "resume"                 \* resumeTunnel: cloud control offers no ValidateTunnelResumeToken
-  /\ (Authd(p.id) \/ ("authLast" \in MUT /\ p.cred # "nothing"))   \* conn.GetClientID() = 0 -> "client not authenticated"
+  /\ (Authd(p.id) \/ ("authLast" \in Mut /\ p.cred # "nothing"))   \* conn.GetClientID() = 0 -> "client not authenticated"
   /\ CASE p.cred \in {"idOnly", "otherId"} ->      \* mapping id, empty secret: conncode.ValidateMapping
             MExists(m) /\ MValid(m) /\ IsListen(p.id, m)
        [] p.cred \in {"rightSecret", "otherSecret"} ->  \* secret branch: party of the mapping + equal secret
             MExists(m) /\ (IsListen(p.id, m) \/ IsTarget(p.id, m))
-                       /\ ("secretValidity" \in FIXES => MValid(m))
+                       /\ ("secretValidity" \in Fx => MValid(m))
        [] OTHER -> FALSE                            \* wrong secret / no credential at all
 
 \* ------------------------------------------------------------------------------------------
@@ -164,15 +215,17 @@ Entitled(p, tm) == IF p.cred = "otherId" THEN p.id = "stranger" /\ tm \in {None,
 \* the script of a cell
 OpenStep(w, n) == [op |-> "Open", who |-> w, node |-> n]
 Script(c) ==
-  LET rn    == IF c.ts \in {"remote", "lateRemote", "prefixRemote"} THEN "B" ELSE "A"
+  LET rn    == IF c.ts \in OnB THEN "B" ELSE "A"
       build == CASE c.ts = "none"    -> <<>>
-                 [] c.ts = "prefixRemote" -> <<OpenStep("S", "A"), OpenStep("P", "A")>>
+                 [] c.ts \in Prefix  -> <<OpenStep("S", "A"), OpenStep("P", "A")>>
                  [] c.ts \in Late    -> <<OpenStep("S", "A"), [op |-> "Resolve", who |-> "R"]>>
                  [] c.ts = "waiting" -> <<OpenStep("S", "A")>>
                  [] c.ts = "remote"  -> <<OpenStep("S", "A")>>
                  [] c.ts = "served"  -> <<OpenStep("S", "A"), OpenStep("T", "A")>>
   IN IF c.ord \in UsageOrders
        THEN build \o <<[op |-> "SetMap"], [op |-> "UsageLand"], OpenStep("R", rn), [op |-> "Marker"]>>
+     ELSE IF c.ord = "closeAfter"
+       THEN build \o <<[op |-> "SetMap"], [op |-> "Close"], OpenStep("R", rn), [op |-> "Marker"]>>
      ELSE IF c.ord = "legitFirst"
        THEN build \o <<[op |-> "SetMap"], OpenStep("R", rn), [op |-> "Marker"]>>
        ELSE <<[op |-> "SetMap"], OpenStep("R", rn)>> \o build \o <<[op |-> "Marker"]>>
@@ -184,15 +237,21 @@ Running == pc <= Len(Script(cell))
 \* its mapping is active (the legitimate source is refused otherwise: that is the "none" state)
 \* a mapping without a listen client has no legitimate client source: its cells are the requester
 \* alone against the validation (which runs on every branch)
-Init == /\ cell \in [id : Idents, cred : Creds, ms : MStates, ts : TStates, ord : Orders, shape : Shapes]
+Init == /\ cell \in [id : Idents, cred : Creds, ms : MStates, ts : TStates, ord : Orders, shape : Shapes,
+                     mut : IF "*" \in MUT THEN {ShowMuts[i] : i \in 1..Len(ShowMuts)} ELSE {"-"}]
         /\ cell.ts \in Late => (cell.ord = "reqFirst" /\ cell.ms = "active")
         /\ cell.shape # "std" => (cell.ts = "none" /\ cell.ord = "legitFirst")
         \* the usage orders need an admitted mapping-id open before the change: the waiting tunnel
-        /\ cell.ord \in UsageOrders => (cell.ts = "waiting" /\ cell.shape = "std" /\ cell.ms # "active")
-        \* the prefix class is about the node-to-node hop, not about M's state
-        /\ cell.ts = "prefixRemote" => (cell.ord = "legitFirst" /\ cell.ms = "active" /\ cell.shape = "std")
+        /\ cell.ord \in UsageOrders => (cell.ts = "waiting" /\ cell.shape = "std" /\ cell.ms \notin {"active", "lapsed"})
+        \* ... closeAfter a served tunnel that carried data
+        /\ cell.ord = "closeAfter" => (cell.ts = "served" /\ cell.shape = "std" /\ cell.ms \notin {"active", "lapsed"})
+        \* the prefix classes are about how a tunnel id is resolved, not about M's state
+        /\ cell.ts \in Prefix => (cell.ord = "legitFirst" /\ cell.ms = "active" /\ cell.shape = "std")
+        \* natural expiry: plain orders, plain shape (the record is "lapsing" from the start)
+        /\ cell.ms = "lapsed" => (cell.ord \in {"legitFirst", "reqFirst"} /\ cell.shape = "std")
         /\ poll = None /\ uw = None /\ adm = "active" /\ br2 = NoBridge
-        /\ pc = 1 /\ mst = "active" /\ br = NoBridge
+        /\ late = FALSE /\ vc = FALSE /\ bc = None
+        /\ pc = 1 /\ mst = (IF cell.ms = "lapsed" THEN "lapsing" ELSE "active") /\ br = NoBridge
         /\ ack = [w \in Who |-> "none"] /\ att = [w \in Who |-> "none"]
         /\ got = [w \in Who |-> FALSE] /\ ent = [w \in Who |-> FALSE]
         /\ opened = {} /\ dev = {} /\ hist = <<>>
@@ -206,27 +265,43 @@ Arrival(w, n) == LET b == Bof(w) IN
 Rec(w, n, via) == [op |-> "Open", who |-> w, node |-> n, id |-> Prof(w).id, cred |-> Prof(w).cred,
                    ms |-> adm, ts |-> Arrival(w, n), tid |-> Tid(w), via |-> via]
 
-Done(w, n, via, a, at, e, d, b) ==
+\* why an unentitled request was let in: a cause the MUT set introduces, else the branch's own
+\* (as-found) deviation
+TreeValid(r) == r = "active" \/ (r = "lapsing" /\ ~late)
+MutCause == {c \in {"expiryTolerance"} : "expirySkew" \in Mut /\ (mst = "expiredJust" \/ (mst = "lapsing" /\ late))}
+            \cup {c \in {"memoisedValidation"} : Cached /\ ~(mst # "missing" /\ TreeValid(mst))}
+            \cup {c \in {"staleStore"} : TreeValid(mst) /\ adm # "active"}
+AdmitDev(p, e, d) == IF e THEN {} ELSE IF Pres(p) = "M" /\ MutCause # {} THEN MutCause ELSE {d}
+
+\* bt: the bridge ("T" | "T+") the branch worked on
+DoneOn(bt, w, n, via, a, at, e, d, b) ==
   /\ ack' = [ack EXCEPT ![w] = a] /\ att' = [att EXCEPT ![w] = at]
   /\ ent' = [ent EXCEPT ![w] = e] /\ opened' = opened \cup {w}
   /\ dev' = dev \cup d
-  /\ IF Tid(w) = "T" THEN br' = b /\ br2' = br2 ELSE br2' = b /\ br' = br
+  /\ IF bt = "T" THEN br' = b /\ br2' = br2 ELSE br2' = b /\ br' = br
   /\ hist' = Append(hist, Rec(w, n, via) @@ [exp |-> [ack |-> a, att |-> at]])
-  /\ pc' = pc + 1 /\ UNCHANGED <<cell, mst, adm, got>>
+  /\ pc' = pc + 1 /\ UNCHANGED <<cell, mst, adm, got, late>>
+  \* the bridge of M keeps what it learnt about the mapping when it was created
+  /\ bc' = IF via = "NewBridge:SourceBridge" /\ Pres(Prof(w)) = "M" THEN mst ELSE bc
+  \* an admitted request that presented M: its validation may be memoised (MUT); the usage write
+  \* of a mapping-id request is a write to M's record (drops a memo that writes invalidate)
+  /\ vc' = IF a = "ok" /\ Pres(Prof(w)) = "M" /\ Validate(Prof(w))
+              THEN ~(Prof(w).cred = "idOnly" /\ "validityCache" \in Mut) ELSE vc
   \* an admitted mapping-id request records the mapping's usage: read - set LastActive - write the
   \* whole record back.  With a slow store the write is still pending when the open is over
   \* (background write, MUT usageAsync) or the open itself is still in it (inflightUsage)
   /\ uw' = IF w = "S" /\ a = "ok" /\ Prof(w).cred = "idOnly"
-                /\ (cell.ord = "inflightUsage" \/ (cell.ord = "slowUsage" /\ "usageAsync" \in MUT))
+                /\ (cell.ord = "inflightUsage" \/ (cell.ord = "slowUsage" /\ "usageAsync" \in Mut))
             THEN mst ELSE uw
   /\ poll' = IF via = "NewBridge:TargetBridge:polling" THEN w ELSE poll
+Done(w, n, via, a, at, e, d, b) == DoneOn(Tid(w), w, n, via, a, at, e, d, b)
 
 \* --- the validation moved in front of the dispatch (patches/C04-1) refuses ------------------
 RefusedBeforeDispatch(w, n) ==
-  /\ "validateJoin" \in FIXES /\ ~Validate(Prof(w))
+  /\ "validateJoin" \in Fx /\ ~Validate(Prof(w))
   /\ Done(w, n, "Refused", "fail", "none", Entitled(Prof(w), Bof(w).map), {}, Bof(w))
 
-Pass(w) == "validateJoin" \in FIXES => Validate(Prof(w))
+Pass(w) == "validateJoin" \in Fx => Validate(Prof(w))
 
 \* --- bridge registered on this node: handleExistingBridge -----------------------------------
 \* as found: no control-connection lookup, no HandleTunnelOpen; success ack; SetTargetConnection
@@ -234,10 +309,10 @@ Pass(w) == "validateJoin" \in FIXES => Validate(Prof(w))
 ExistingBridge(w, n) ==
   /\ Pass(w) /\ Bof(w).node = n
   /\ LET p == Prof(w) b == Bof(w) e == Entitled(p, b.map) IN
-     IF "bindMapping" \in FIXES /\ Pres(p) # b.map
+     IF "bindMapping" \in Fx /\ Pres(p) # b.map
        THEN Done(w, n, "ExistingBridge:otherMapping", "fail", "none", e, {}, b)
        ELSE Done(w, n, "ExistingBridge", "ok", "tgt", e,
-                 IF e THEN {} ELSE {"existingBridgeNoCheck"},
+                 AdmitDev(p, e, "existingBridgeNoCheck"),
                  \* SetTarget: the bridge's books name the newcomer; the copy loops keep the
                  \* forwarder they started with (first target that made the bridge ready)
                  [b EXCEPT !.tgt = w, !.live = IF b.live = None /\ b.xn = None THEN w ELSE @])
@@ -248,22 +323,18 @@ ExistingBridge(w, n) ==
 \* payload carries the full id: CrossNodeListener.handleTargetReady resolves the bridge by the
 \* full id (MUT headerFirst: by the header first - for T+ that is the bridge of T), then
 \* SetCrossNodeConnection + NotifyTargetReady + runBridgeForward on THAT bridge.
-HeaderHit(w) == "headerFirst" \in MUT /\ Tid(w) = "T+" /\ br.node = br2.node /\ br.node # None
+HeaderHit(w) == "headerFirst" \in Mut /\ Tid(w) = "T+" /\ br.node = br2.node /\ br.node # None
 CrossNodeTarget(w, n) ==
   /\ Pass(w) /\ Bof(w).node \notin {None, n}
   /\ LET p == Prof(w) b == Bof(w) IN
-     IF "bindMapping" \in FIXES /\ Pres(p) # b.map
+     IF "bindMapping" \in Fx /\ Pres(p) # b.map
        THEN Done(w, n, "CrossNodeTarget:otherMapping", "fail", "none", Entitled(p, b.map), {}, b)
        ELSE IF HeaderHit(w)
          THEN \* ForwardToSourceNode, attached to the bridge of the 16-byte prefix
-              /\ ack' = [ack EXCEPT ![w] = "ok"] /\ att' = [att EXCEPT ![w] = "fwd"]
-              /\ ent' = [ent EXCEPT ![w] = Entitled(p, br.map)] /\ opened' = opened \cup {w}
-              /\ dev' = dev \cup (IF Entitled(p, br.map) THEN {} ELSE {"headerBridgeLookup"})
-              /\ br' = [br EXCEPT !.xn = w] /\ br2' = br2
-              /\ hist' = Append(hist, Rec(w, n, "CrossNodeTarget:headerBridge") @@ [exp |-> [ack |-> "ok", att |-> "fwd"]])
-              /\ pc' = pc + 1 /\ UNCHANGED <<cell, mst, adm, got, uw, poll>>
+              DoneOn("T", w, n, "CrossNodeTarget:headerBridge", "ok", "fwd", Entitled(p, br.map),
+                     IF Entitled(p, br.map) THEN {} ELSE {"headerBridgeLookup"}, [br EXCEPT !.xn = w])
          ELSE Done(w, n, "CrossNodeTarget", "ok", "fwd", Entitled(p, b.map),
-                   IF Entitled(p, b.map) THEN {} ELSE {"crossNodeNoCheck"},
+                   AdmitDev(p, Entitled(p, b.map), "crossNodeNoCheck"),
                    [b EXCEPT !.xn = w])          \* ForwardToSourceNode
 
 \* --- neither: the only branch that validates in the tree as found ----------------------------
@@ -271,25 +342,25 @@ NewBridge(w, n) ==
   /\ Bof(w).node = None
   /\ LET p == Prof(w) m == Pres(p) e == Entitled(p, None) IN
      IF ~Validate(p)
-       THEN /\ "validateJoin" \notin FIXES        \* (with the patch this is RefusedBeforeDispatch)
+       THEN /\ "validateJoin" \notin Fx        \* (with the patch this is RefusedBeforeDispatch)
             /\ Done(w, n, "NewBridge:refused", "fail", "none", e, {}, Bof(w))
        ELSE IF IsListen(p.id, m)                  \* isSourceClient
          THEN \* SourceBridge: startSourceBridge registers the bridge and the routing record; SetSource
               Done(w, n, "NewBridge:SourceBridge", "ok", "src", e,
-                   IF e THEN {} ELSE {"secretNoValidity"},
+                   AdmitDev(p, e, "secretNoValidity"),
                    [node |-> n, map |-> m, src |-> w, tgt |-> None, live |-> None, xn |-> None])
          ELSE \* TargetBridge: no bridge -> handleCrossNodeTargetConnection -> lookupTunnelRouting
               \* polls for a record.  In the late classes one appears (PollFound); otherwise the
               \* lookup ends with an error after the success ack and nothing is attached
               Done(w, n, IF cell.ts \in Late /\ w = "R" THEN "NewBridge:TargetBridge:polling" ELSE "NewBridge:TargetBridge",
-                   "ok", "none", e, IF e THEN {} ELSE {"secretNoValidity"}, Bof(w))
+                   "ok", "none", e, AdmitDev(p, e, "secretNoValidity"), Bof(w))
 
 Open == /\ Running /\ Step.op = "Open"
         /\ LET w == Step.who n == Step.node IN
            \* the legitimate target is told to connect only once a bridge exists
-           IF w = "T" /\ br.node = None
+           IF w = "T" /\ Bof(w).node = None
              THEN /\ pc' = pc + 1 /\ hist' = Append(hist, [op |-> "Skip", who |-> w])
-                  /\ UNCHANGED <<cell, mst, adm, uw, br, br2, ack, att, got, ent, opened, dev, poll>>
+                  /\ UNCHANGED <<cell, mst, adm, uw, br, br2, ack, att, got, ent, opened, dev, poll, late, vc, bc>>
              ELSE \/ RefusedBeforeDispatch(w, n)
                   \/ ExistingBridge(w, n)
                   \/ CrossNodeTarget(w, n)
@@ -309,7 +380,7 @@ Resolve ==
             /\ UNCHANGED <<br, att, ent, dev>>
        ELSE IF br.node = None                                        \* PollTimeout
          THEN /\ hist' = Append(hist, ResolveRec(w, "none")) /\ UNCHANGED <<br, att, ent, dev>>
-       ELSE IF "bindMappingPoll" \in FIXES /\ Pres(p) # br.map      \* PollFound, step (1)
+       ELSE IF "bindMappingPoll" \in Fx /\ Pres(p) # br.map      \* PollFound, step (1)
          THEN /\ hist' = Append(hist, ResolveRec(w, "none"))
               /\ ent' = [ent EXCEPT ![w] = Entitled(p, None)] /\ UNCHANGED <<br, att, dev>>
        ELSE LET e == Entitled(p, br.map)                             \* PollFound, step (2)
@@ -321,14 +392,19 @@ Resolve ==
                                     ELSE [br EXCEPT !.xn = w]
               /\ hist' = Append(hist, ResolveRec(w, a))
   /\ poll' = None /\ pc' = pc + 1
-  /\ UNCHANGED <<cell, mst, adm, uw, br2, ack, got, opened>>
+  /\ UNCHANGED <<cell, mst, adm, uw, br2, ack, got, opened, late, vc, bc>>
 
 \* the mapping reaches the state of the cell (revoked / expired / deactivated / deleted through
 \* the real services) - before the requester arrives
+\* "lapsed" is not an act: the ExpiresAt the record has carried from the start passes (no write)
 SetMap == /\ Running /\ Step.op = "SetMap"
-          /\ mst' = cell.ms /\ adm' = cell.ms /\ pc' = pc + 1
+          /\ adm' = cell.ms /\ pc' = pc + 1
+          /\ IF cell.ms = "lapsed" THEN late' = TRUE /\ UNCHANGED <<mst, vc>>
+             ELSE /\ mst' = cell.ms /\ late' = late
+                  \* a write to M's record (cell.ms = "active": nothing is written)
+                  /\ vc' = IF cell.ms # "active" /\ "validityCache" \in Mut THEN FALSE ELSE vc
           /\ hist' = Append(hist, [op |-> "SetMap", ms |-> cell.ms])
-          /\ UNCHANGED <<cell, uw, br, br2, ack, att, got, ent, opened, dev, poll>>
+          /\ UNCHANGED <<cell, uw, br, br2, ack, att, got, ent, opened, dev, poll, bc>>
 
 \* the held RecordMappingUsage write lands: the copy read before the change goes back into the
 \* store (UpdatePortMapping writes the whole record).  Nothing pending: nothing happens.
@@ -336,8 +412,22 @@ UsageLand == /\ Running /\ Step.op = "UsageLand"
              /\ mst' = IF uw # None THEN uw ELSE mst
              /\ dev' = dev \cup (IF uw # None /\ uw # mst THEN {"staleUsageWriteBack"} ELSE {})
              /\ uw' = None /\ pc' = pc + 1
-             /\ hist' = Append(hist, [op |-> "UsageLand", exp |-> [valid |-> mst' = "active"]])
-             /\ UNCHANGED <<cell, adm, br, br2, ack, att, got, ent, opened, poll>>
+             /\ vc' = IF uw # None /\ "validityCache" \in Mut THEN FALSE ELSE vc
+             /\ hist' = Append(hist, [op |-> "UsageLand", exp |-> [valid |-> TreeValid(mst')]])
+             /\ UNCHANGED <<cell, adm, br, br2, ack, att, got, ent, opened, poll, late, bc>>
+
+\* the served tunnel of M closes after it carried data: both ends hang up, the bridge is removed,
+\* its final traffic report runs - GetPortMapping (the record as it is NOW), add the byte counts,
+\* UpdatePortMappingStats (reads the record again, writes the whole record).  The tree writes back
+\* what it has just read; MUT closeStaleCopy: the copy the bridge took when it was created.
+Close == /\ Running /\ Step.op = "Close"
+         /\ LET stale == "closeStaleCopy" \in Mut /\ bc # None /\ br.node # None IN
+            /\ mst' = IF stale THEN bc ELSE mst
+            /\ dev' = dev \cup (IF stale /\ bc # mst THEN {"staleCloseWriteBack"} ELSE {})
+            /\ vc'  = IF br.node # None /\ mst # "missing" /\ "validityCache" \in Mut THEN FALSE ELSE vc
+            /\ hist' = Append(hist, [op |-> "Close", exp |-> [valid |-> TreeValid(mst')]])
+         /\ br' = NoBridge /\ bc' = None /\ pc' = pc + 1
+         /\ UNCHANGED <<cell, adm, uw, br2, ack, att, got, ent, opened, poll, late>>
 
 \* every attached end writes a marker; bytes of a bridge's source go to its cross-node forwarder
 \* if one is attached, else to the target its copy loops started with; bytes of that end go to
@@ -351,9 +441,9 @@ Marker == /\ Running /\ Step.op = "Marker"
              /\ got' = g /\ pc' = pc + 1
              /\ hist' = Append(hist, [op |-> "Marker", exp |-> g])
              /\ Out([cell |-> cell, steps |-> hist', dev |-> dev])
-          /\ UNCHANGED <<cell, mst, adm, uw, br, br2, ack, att, ent, opened, dev, poll>>
+          /\ UNCHANGED <<cell, mst, adm, uw, br, br2, ack, att, ent, opened, dev, poll, late, vc, bc>>
 
-Next == Open \/ SetMap \/ UsageLand \/ Resolve \/ Marker
+Next == Open \/ SetMap \/ UsageLand \/ Close \/ Resolve \/ Marker
 Spec == Init /\ [][Next]_vars
 
 \* ------------------------------------------------------------------------------------------
@@ -363,8 +453,11 @@ TypeOK == /\ pc \in 1..(Len(Script(cell)) + 1)
           /\ br.node \in {None, "A", "B"} /\ br2.node \in {None, "A", "B"}
 
 Known == {"existingBridgeNoCheck", "crossNodeNoCheck", "secretNoValidity", "pollNoMappingCheck"}
-\* (staleUsageWriteBack / headerBridgeLookup only fire under MUT or the inflightUsage order: never masked)
-Mask  == Masked /\ dev \cap Known # {}
+\* (staleUsageWriteBack / staleCloseWriteBack / headerBridgeLookup / expiryTolerance / memoisedValidation /
+\*  staleStore only fire under MUT or the inflightUsage order: never masked)
+\* the in-flight order is a deviation the tree HAS (lost update between RecordMappingUsage's read and
+\* write and the change of the mapping): masked like the as-found ones, shown by TunnelOpen_show_inflight.cfg
+Mask  == Masked /\ (dev \cap Known # {} \/ (cell.ord = "inflightUsage" /\ dev \cap {"staleUsageWriteBack", "staleStore"} # {}))
 
 \* attached (as source, as target, through another node) only if authenticated and entitled
 AttachedEntitled == Mask \/ \A w \in Who : att[w] # "none" => ent[w]
@@ -374,6 +467,15 @@ RefusedClean     == Mask \/ \A w \in opened : ~ent[w] => (ack[w] = "fail" /\ ~go
 OnlyAttachedRead == \A w \in Who : got[w] => att[w] # "none"
 \* no deviation is reachable in the repaired design
 NoDeviation      == Masked \/ dev = {}
+\* every named deviation shows (TunnelOpen_show_all.cfg, one worker): ShowRecord is an always-true
+\* INVARIANT that notes in a TLC register which deviation produced an unauthorised attachment,
+\* AllShown the POSTCONDITION that none is missing.  A deviation the model can no longer express
+\* would make the "no deviation reachable" run of the patched design vacuous.
+ASSUME \A i \in 1..Len(ShowMuts) : TLCSet(i, FALSE)
+ShowRecord == \A i \in 1..Len(ShowMuts) :
+                (cell.mut = ShowMuts[i] /\ \E w \in Who : att[w] # "none" /\ ~ent[w]) => TLCSet(i, TRUE)
+AllShown   == \A i \in 1..Len(ShowMuts) :
+                TLCGet(i) \/ ~PrintT("NOT SHOWN: " \o ShowMuts[i])
 \* sanity of the model itself: the plain legitimate flows work (source creates, target joins)
 LegitWorks == (~Running /\ cell.ord = "legitFirst" /\ cell.ts = "served")
                  => (att["S"] = "src" /\ att["T"] = "tgt" /\ ack["S"] = "ok" /\ ack["T"] = "ok")
